@@ -36,6 +36,12 @@ def special_array(kind, j):
         j -= 3
     if j >= 4 and kind != 'q':
         j = 3
+    if kind in ('v2', 'v3', 'v4', 'v6') and j0 >= 4:
+        # non-finite components: code that "cleans" its input in place lives here
+        n = {'v2': 2, 'v3': 3, 'v4': 4, 'v6': 6}[kind]
+        v = np.arange(1.0, n + 1.0)
+        v[0] = float('nan') if j0 == 4 else float('inf')
+        return v
     if kind in ('v2', 'v3', 'v4', 'v6', 'sv3', 'uv3'):
         n = {'v2': 2, 'v3': 3, 'v4': 4, 'v6': 6, 'sv3': 3, 'uv3': 3}[kind]
         v = np.zeros(n)
@@ -193,6 +199,8 @@ MAT_FORMS = ['array', 'fortran', 'view', 'strided', 'transposed', 'nested', 'int
 
 def to_form(a, form):
     """Present float64 array a in another container form (value preserved unless 'int*')."""
+    if form in ('intarray', 'intlist') and not np.all(np.isfinite(a)):
+        form = 'array' if form == 'intarray' else 'list'      # no integer form of nan / inf
     if form == 'array':
         return np.array(a)
     if form == 'list':
